@@ -708,8 +708,10 @@ func run(sc *Scenario, diag bool) (res Result) {
 	return res
 }
 
+// horizon: virtual time after which a cancelled timer-driven stage must have noticed the cancel.  Emit may still
+// win its send arm while the output buffer has room, so the horizon covers capacity+12 periods.
 func (e *env) horizon() time.Duration {
-	return time.Duration(10*max(e.sc.Interval, e.sc.Freq, 1)) * e.sc.unit()
+	return time.Duration((12+e.sc.Caps0())*max(e.sc.Interval, e.sc.Freq, 1)) * e.sc.unit()
 }
 
 // backpressure: at this quiescent point some producer is blocked or some input buffer is full.
